@@ -113,7 +113,11 @@ def cross_process(h: Harness):
         configs.append([a, r, "synthetic", 8, {"gp": 30}.get(a, 12)])
     envs = [{"PYTHONHASHSEED": "0", "C08_PAD": "0", "C08_IMPORT_ORDER": "a"},
             {"PYTHONHASHSEED": "1", "C08_PAD": "1000", "C08_IMPORT_ORDER": "b", "C08_HOLES": "1", "C08_LOG": "debug"},
-            {"PYTHONHASHSEED": "4242", "C08_PAD": "123457", "C08_IMPORT_ORDER": "a"}]
+            {"PYTHONHASHSEED": "4242", "C08_PAD": "123457", "C08_IMPORT_ORDER": "a"},
+            # (more memory layouts: what depends on the ADDRESSES of class objects shows only when two layouts order them differently)
+            {"PYTHONHASHSEED": "7", "C08_PAD": "17", "C08_IMPORT_ORDER": "b"},
+            {"PYTHONHASHSEED": "99", "C08_PAD": "4099", "C08_IMPORT_ORDER": "a", "C08_HOLES": "1"},
+            {"PYTHONHASHSEED": "31337", "C08_PAD": "70001", "C08_IMPORT_ORDER": "b", "C08_HOLES": "1"}]
     if h.thorough:
         envs += [{"PYTHONHASHSEED": str(k), "C08_PAD": str(k * 7919 % 50000), "C08_IMPORT_ORDER": "ab"[k % 2]} for k in (2, 3, 5, 8, 13)]
     # run the environments concurrently
